@@ -5,6 +5,7 @@ property against /repo with the patch applied (undone afterwards) and rewrites t
 Prints one line per change and a summary; exit 1 if a seeded defect is missed or a harmless change raises an alarm."""
 import glob, json, os, subprocess, sys, time
 ROOT = os.path.dirname(os.path.dirname(os.path.abspath(__file__)))
+REPO = os.environ.get('VERIF_REPO', '/repo')
 
 
 def sh(cmd, cwd=None, timeout=3000):
@@ -26,7 +27,7 @@ def main():
         meta = json.load(open(mp))
         harmless = '/harmless/' in d
         props = sorted(meta.get('checks', {}).keys()) if harmless else [meta['property']]
-        rc, o = sh('git -C /repo apply %s' % os.path.join(d, 'patch.diff'))
+        rc, o = sh('git -C %s apply %s' % (REPO, os.path.join(d, 'patch.diff')))
         if rc != 0:
             print(name, 'PATCH DOES NOT APPLY')
             bad += 1
@@ -39,7 +40,7 @@ def main():
                 lines = [l for l in o.split('\n') if l.startswith('VIOLATION') or l.startswith(p + ' ') or 'no longer checks' in l or l.startswith('  violation')]
                 det[p] = {'rc': rc, 'fired': rc == 1 and any(l.startswith('VIOLATION') for l in lines), 'summary': [l[:300] for l in lines[:6]], 'wall_s': round(time.time() - t0, 1)}
         finally:
-            sh('git -C /repo checkout -- .')
+            sh('git -C %s checkout -- .' % REPO)
         if harmless:
             meta['checks'] = {p: {'rc': v['rc'], 'alarm': v['rc'] != 0, 'summary': v['summary'][:5]} for p, v in det.items()}
         else:
